@@ -566,6 +566,9 @@ def c19_grp_gen(rng, tier):
         ("slow", "u", 1, "base", "a", 2, [("ab", "absent"), ("none", "absent"), ("lan", "fresh")]),
         ("slow", "u", 0, "base", "none-valid", 3, [("lan", "fresh"), ("guest", "absent")]),
         ("slow", "t", 1, "base", "none-invalid", 3, [("lan", "absent"), ("guest", "fresh")]),
+        ("slow", "u", 1, "base", "lan", 3, [("guest", "window"), ("none", "absent")]),
+        ("slow", "t", 0, "loop", "guest", 2, [("loop", "window"), ("lan", "window"), ("none", "absent")]),
+        ("slow", "u", 1, "base", "a", 2, [("none-invalid", "window"), ("ab", "fresh")]),
         ("fast", "u", 0, "base", "guest", 1, [("lan", "fresh"), ("none", "absent")]),
         ("fast", "t", 1, "base", "lan", 1, [("guest", "absent"), ("none", "absent")]),
         ("neg", "u", 0, "base", "lan", 1, [("none", "absent"), ("guest", "fresh")]),
@@ -581,8 +584,9 @@ def c19_grp_gen(rng, tier):
         gg = "none" if g.startswith("none") else g
         rest = [r for r in roles + (["loop"] if marker == "loop" else []) if r != gg]
         rng.shuffle(rest)
-        oth = [(r, rng.choice(["fresh", "absent"])) for r in rest[:rng.randint(1, 3)]]
         mode = rng.choice(["slow", "slow", "slow", "fast", "neg", "fail"])
+        oth = [(r, rng.choice(["fresh", "absent"] + (["window"] if mode == "slow" else []))) for r in rest[:rng.randint(1, 3)]]
+        oth = [((rng.choice(["none-valid", "none-invalid"]) if (r == "none" and st == "window") else r), st) for r, st in oth]
         up = "t" if mode == "fail" else rng.choice("ut")
         n = 1 if mode != "slow" else rng.choice([1, 2, 5, 12])
         base.append((mode, up, rng.randint(0, 1), marker, g, n, oth))
@@ -634,7 +638,9 @@ def c19_grp_oracle(line, res):
     g = _grp_of(ranges, hit[0])
     gname = "'%s'" % g
     nfresh = sum(1 for st, _ in oth if st == "fresh")
-    mfresh = sum(len(cs) for st, cs in oth if st == "fresh")
+    mfresh = sum(len(cs) for st, cs in oth if st in ("fresh", "window"))
+    nwin = sum(1 for st, _ in oth if st == "window")     # groups whose own entry is in its last quarter as well
+    nref = 1 + nwin
     if r.get("setup") != "%d/%d" % (nfresh, nfresh) or r.get("setup_up") != str(nfresh):
         return ("setup: the first query of %d client groups that never asked before: %s answered by the upstream, %s upstream "
                 "queries (an answer cached for one group was served to another)" % (nfresh, r.get("setup"), r.get("setup_up")))
@@ -643,27 +649,23 @@ def c19_grp_oracle(line, res):
     if r.get("oth") != "%d/%d" % (mfresh, mfresh):
         return "concurrent hits of the other groups on their own entries: %s answered with their own answer" % r.get("oth")
     if mode == "slow":
-        if r.get("up_mid") != "1":
-            return "%s refresh queries for %d concurrent hits of ONE (question, group) (must be exactly one)" % (r.get("up_mid"), len(hit))
-        if r.get("infl_mid") != "1":
-            return "in-flight set has %s keys while the one refresh of group %s is running" % (r.get("infl_mid"), gname)
-    valid = _grp_client_addr(hit[0]) is not None
-    want_ecs = "own" if (f["ecs"] == "1" and valid) else "none"
-    if r.get("ecs") != want_ecs:
-        return ("the refresh's upstream query carries ECS '%s', expected '%s': it must be made on behalf of the hitting client "
-                "(group %s)" % (r.get("ecs"), want_ecs, gname))
+        if int(r.get("up_mid", "0")) > nref:
+            return "%s refresh queries for concurrent hits of %d (question, group) pairs inside their last quarter (at most one each)" % (
+                r.get("up_mid"), nref)
+        if int(r.get("infl_mid", "0")) > nref:
+            return "in-flight set has %s keys while the refreshes of %d groups are running" % (r.get("infl_mid"), nref)
     if r.get("infl_end") != "0":
         return "the key stayed in flight after the refresh ended"
-    if r.get("up_end") != "1" and not (mode == "fail" and r.get("up_end") == "2"):
-        return "%s upstream queries for one refresh of group %s" % (r.get("up_end"), gname)
+    if int(r.get("up_end", "0")) > nref:
+        return "%s upstream queries for %d refreshes (one per (question, group))" % (r.get("up_end"), nref)
     ls = (r.get("later") or "").split(",")
     if mode in ("slow", "fast"):
         if ls != ["B:r"] * len(later):
             return ("after a successful refresh started by a hit of group %s, later hits of the SAME group got %s "
                     "(expected the refreshed answer with a renewed TTL for each: the refresh was not stored under the "
                     "group of the hit that started it)" % (gname, r.get("later")))
-        if r.get("up_after") != "1":
-            return "%s upstream queries in total: a hit on the renewed entry started another refresh" % r.get("up_after")
+        if int(r.get("up_after", "0")) > nref:
+            return "%s upstream queries in total for %d refreshes: a hit on the renewed entry started another refresh" % (r.get("up_after"), nref)
     else:
         if ls[:1] != ["A:a"]:
             return "after a %s refresh the group's old entry is not served unchanged (%s)" % (
@@ -679,7 +681,11 @@ def c19_grp_oracle(line, res):
     nabs = 0
     for (st, cs), got in zip(oth, oa):
         og = "'%s'" % _grp_of(ranges, cs[0])
-        if st == "fresh":
+        if st == "window":
+            if got != "B" * len(cs):
+                return ("group %s's own entry was inside its last quarter and hit by its clients at the same time as group %s's: "
+                        "after both refreshes its clients got %s (its own successful refresh must renew ITS entry)" % (og, gname, got))
+        elif st == "fresh":
             if got != "C" * len(cs):
                 return ("group %s had its own cached answer for the question; after the refresh started by group %s its clients "
                         "got %s (another group's refresh changed or replaced its entry)" % (og, gname, got))
@@ -690,6 +696,11 @@ def c19_grp_oracle(line, res):
                         "instead of the upstream's current answer D: a cached answer went to a different client group" % (og, gname, got))
     if r.get("oth_up") != str(nabs):
         return "%s upstream queries for the first questions of %d groups without an entry" % (r.get("oth_up"), nabs)
+    want_ecs = "+".join(sorted(("own" if (f["ecs"] == "1" and _grp_client_addr(cs[0]) is not None) else "none")
+                               for cs in [hit] + [cs for st, cs in oth if st == "window"]))
+    if r.get("ecs") != want_ecs and len((r.get("ecs") or "").split("+")) == nref:
+        return ("the refresh queries carry ECS '%s', expected '%s': a refresh must be made on behalf of the client whose hit "
+                "started it (group %s)" % (r.get("ecs"), want_ecs, gname))
     if r.get("final") != "B:r":
         return "group %s's renewed entry was disturbed by the other groups' queries (%s)" % (gname, r.get("final"))
     if r.get("infl_final") != "0":
@@ -702,8 +713,7 @@ def c19_grp_oracle(line, res):
 def c19_grp_compare(ir, mr):
     if ir.startswith("timing=bad"):
         return True
-    # one failing refresh over a re-used TCP connection may be written twice by the transport (C14): one flight
-    return ir.replace(" up_end=2 later=", " up_end=1 later=") == mr
+    return ir == mr
 
 
 def c19_grp_classify(line, res):
@@ -731,3 +741,9 @@ PROPS["C19"]["assumptions"].append(
     "prefetchgrp: the DoH listeners are configured with a client-address header (the harness plays the trusted front-end); "
     "the fake upstream's answer depends on the question only, so a group's view is identified by which scripted answer "
     "(A, B, C, D) it is served")
+PROPS["C19"]["level_note"] += ("; client groups (round 3): the (question, group) key is explicit in Router/PrefetchGroups.v "
+                               "(group = ip-marker label through C07's mark_of): a successful refresh stores under the key of the "
+                               "hit that started it, every client of that group sees the renewed entry, no other group's view "
+                               "changes (proved); that the Go goroutine really carries the client address as a value copied at "
+                               "spawn time (and not the pooled request context) is tested by kind prefetchgrp, and the re-reading "
+                               "design is refuted on the model")
